@@ -104,6 +104,36 @@ def pick(t, terms):
 class C20Executor(Executor):
     """Symbolic byte arrays on the heap (kind 'symarr': (length, Array)), the round-key cache object."""
 
+    # ---- an over-approximated raise (EXC-ANY: attribute / call on a value the engine has no model for) is not a fact about the
+    #      code: the path is tagged like the engine's own havoc_call paths, a VC refuted on it is `unknown` (verify.discharge)
+    def exc_any(self, st, site, also=()):
+        if not self.abstract:
+            st.assume(z3.Bool(f"__havoc__@{site}"[:120]))
+        return super().exc_any(st, site, also)
+
+    # ---- PY-LOG by data flow: a logging call is a call of a logging method on a logger object, whatever the logger is called
+    #      (module-level `X = logging.getLogger(..)`, `logging.getLogger(..).debug(..)`); loggers are modelled (ASSUMED: no effect)
+    def is_logger_call(self, e):
+        import ast as _ast
+        if super().is_logger_call(e):
+            return True
+        if not (isinstance(e, _ast.Call) and isinstance(e.func, _ast.Attribute)
+                and e.func.attr in ("debug", "info", "warning", "warn", "error", "exception", "critical", "log")):
+            return False
+        recv = e.func.value
+        return self._is_logger_expr(recv)
+
+    def _is_logger_expr(self, recv):
+        import ast as _ast
+        from pyvc.flow import dotted
+        if isinstance(recv, _ast.Call):
+            d = dotted(recv.func)
+            full = self.module.imports.get(d.split(".")[0], d.split(".")[0]) + ("." + ".".join(d.split(".")[1:]) if "." in d else "")
+            return full in ("logging.getLogger", "logging.getLogger.getChild") or d.endswith("getLogger")
+        if isinstance(recv, _ast.Name) and recv.id in self.module.assigns:
+            return self._is_logger_expr(self.module.assigns[recv.id])
+        return False
+
     # ---- construction / conversion
     def b_collection(self, st, name, args, node):
         if name == "bytearray" and (not args or (isinstance(args[0], VBytes) and not args[0].items)):
@@ -117,6 +147,23 @@ class C20Executor(Executor):
                 return []
             ref = st2.alloc(HeapObj("symarr", (n, z3.K(I, z3.BitVecVal(0, 8)))), self.refs)
             return [(st2, VRef(ref))]
+        if name in ("bytes", "bytearray") and len(args) == 1 and isinstance(args[0], VSeq) and not self._is_symb(args[0]) \
+                and self.concrete_items(st, args[0]) is None:
+            # bytes(<sequence of ints of symbolic length>), e.g. bytes([p] * p): element j is a byte (obligation: 0 <= int < 256)
+            seq = args[0]
+            j = z3.Int(fresh_name("j!bytes"))
+            e = seq.elem(j)
+            if isinstance(e, VInt):
+                if not e.is_bv:
+                    rng = z3.ForAll([j], z3.Implies(z3.And(j >= 0, j < seq.length), z3.And(e.t >= 0, e.t < 256)))
+                    st2 = self.fork_raise(st, z3.Not(rng), "ValueError")
+                    if st2 is None:
+                        return []
+                    st = st2
+                v = symbytes(seq.length, z3.Lambda([j], byte_t(e)))
+                if name == "bytearray":
+                    return [(st, VRef(st.alloc(HeapObj("symarr", (seq.length, v.tag[2])), self.refs)))]
+                return [(st, v)]
         if name in ("bytes", "memoryview") and args and isinstance(args[0], VRef) and st.obj(args[0].ref).kind == "symarr":
             n, a = st.obj(args[0].ref).data
             return [(st, symbytes(n, a))]
@@ -212,6 +259,62 @@ class C20Executor(Executor):
             return [(st2, VInt(z3.Select(a, z3.If(it < 0, it + n, it))))]
         return super().get_index(st, base, idx, node)
 
+    # ---- `while` loops under a per-iteration invariant: same proof scheme as the engine's symbolic `for`, with a GHOST iteration
+    #      index (0 at entry, +1 per iteration, arbitrary >= 0 at the loop head and at exit).  Partial correctness only: nothing
+    #      is claimed about termination of a `while` loop.
+    def s_While(self, s, st):
+        from pyvc.symex import LoopCtx, Outcome
+        spec = self.loop_spec(s)
+        if spec is None or spec.inv is None or spec.inv_point is None or spec.unroll is not None:
+            return super().s_While(s, st)
+        inv, invp = spec.inv, spec.inv_point
+        label = spec.label or f"L{s.lineno}"
+        entry = st.fork()
+        outs = []
+        zero = z3.IntVal(0)
+        self.add_vc("inv-init", label, st.pc, inv(LoopCtx(self, st, zero, entry, None, {"phase": "init"})), loc=self.loc(s))
+        j0 = z3.Int(fresh_name("j0"))
+        self.add_vc("inv-init", label + ".pointwise", st.pc, invp(LoopCtx(self, st, zero, entry, None), j0), loc=self.loc(s))
+        body_st = st.fork()
+        self.havoc_loop_state(body_st, s.body, spec)
+        i = z3.Int(fresh_name("i!while"))
+        after = body_st.fork()
+        body_st.assume(i >= 0)
+        body_st.assume(self._b(inv(LoopCtx(self, body_st, i, entry, None, {"phase": "assume"}))))
+        head_st = body_st.fork()
+        jq = z3.Int(fresh_name("jq"))
+        q_hyp = z3.ForAll([jq], self._b(invp(LoopCtx(self, head_st, i, entry, None), jq)))
+        body_st.assume(q_hyp)
+        for (s2, g) in self.ev(s.test, body_st):
+            for (s3, b) in self.fork_truth(s2, g):
+                if not b:
+                    continue
+                for o in self.exec_block(s.body, s3):
+                    if o.kind in ("fall", "continue"):
+                        self.add_vc("inv-preserve", label, o.st.pc, inv(LoopCtx(self, o.st, i + 1, entry, None, {"phase": "preserve"})), loc=self.loc(s))
+                        j1 = z3.Int(fresh_name("j0"))
+                        hyps = [self._b(invp(LoopCtx(self, head_st, i, entry, None), j1 + d)) for d in spec.inst_offsets]
+                        self.add_vc("inv-preserve", label + ".pointwise", [p_ for p_ in o.st.pc if p_ is not q_hyp] + hyps,
+                                    invp(LoopCtx(self, o.st, i + 1, entry, None), j1), loc=self.loc(s))
+                    elif o.kind == "break":
+                        outs.append(Outcome("fall", o.st))
+                    else:
+                        outs.append(o)
+        nx = z3.Int(fresh_name("n!while"))
+        after.assume(nx >= 0)
+        after.assume(self._b(inv(LoopCtx(self, after, nx, entry, None, {"phase": "exit"}))))
+        jq2 = z3.Int(fresh_name("jq"))
+        after.assume(z3.ForAll([jq2], self._b(invp(LoopCtx(self, after, nx, entry, None), jq2))))
+        for (s2, g) in self.ev(s.test, after):
+            for (s3, b) in self.fork_truth(s2, g):
+                if b:
+                    continue
+                if s.orelse:
+                    outs.extend(self.exec_block(s.orelse, s3))
+                else:
+                    outs.append(Outcome("fall", s3))
+        return outs
+
     # ---- havoc of symbolic arrays in loops
     def havoc_loop_state(self, st, body, spec, extra_names=()):
         import ast as _ast
@@ -274,6 +377,11 @@ class C20Executor(Executor):
             k = z3.Int("k!cat")
             r = z3.Lambda([k], z3.If(k < na, z3.Select(aa, k), z3.Select(ab, k - na)))
             return [(st, symbytes(na + nb, r))]
+        if op == "Mult" and isinstance(b, VInt) and b.const() is None and isinstance(a, (VRef, VTuple)) and not inplace:
+            items = self.concrete_items(st, a)
+            if items is not None and len(items) == 1 and isinstance(items[0], VInt):
+                n = ops.int_term(b)          # [x] * n : n copies of x (no copy for n <= 0)
+                return [(st, VSeq(z3.If(n < 0, z3.IntVal(0), n), lambda _j, x=items[0]: x, "int"))]
         if op == "Mult" and isinstance(a, VBytes) and len(a.items) == 1 and isinstance(b, VInt) and b.const() is None:
             n = ops.int_term(b)
             return [(st, symbytes(z3.If(n < 0, z3.IntVal(0), n), z3.K(I, byte_t(a.items[0]))))]
@@ -445,6 +553,13 @@ class C20Executor(Executor):
         if name == "join" and isinstance(obj, VBytes) and not obj.items and len(args) == 1 and isinstance(args[0], VSeq) \
                 and self.concrete_items(st, args[0]) is None:
             return [(st, self._join_blocks(st, args[0], node))]
+        if name == "join" and isinstance(obj, VBytes) and not obj.items and len(args) == 1:
+            parts = self.concrete_items(st, args[0])
+            if parts is not None and parts and all(self._bytes_like(x) for x in parts) and any(self._is_symb(x) for x in parts):
+                acc = [(st, parts[0])]
+                for x in parts[1:]:
+                    acc = [(s2, r) for (s1, cur) in acc for (s2, r) in self.binop(s1, "Add", cur, x, node)]
+                return acc
         return super().bytes_method(st, obj, name, args, kwargs, node)
 
     def truth(self, st, v):
